@@ -1074,8 +1074,10 @@ class HeaderSet(cabc.MutableSet[str]):
         headers: cabc.Iterable[str] | None = None,
         on_update: cabc.Callable[[te.Self], None] | None = None,
     ) -> None:
-        self._headers = list(headers or ())
-        self._set = {x.lower() for x in self._headers}
+        self._headers: list[str] = []
+        self._set: set[str] = set()
+        self.on_update = None
+        self.update(headers or ())
         self.on_update = on_update
 
     def add(self, header: str) -> None:
